@@ -107,6 +107,13 @@ def run(chk):
         for kind in KINDS:
             for m in (2, 3, 4, 8, 64):
                 cells.append(dict(kind=kind, m=m, groups=groups, shape=name, oracle=p, trials=trials_for(m, len(wa), quick)))
+    # variant 2 offers reset(): the same cells through one object reused with reset between the two sets
+    for name, groups in shapes(quick):
+        if name in ("unequal-1:5", "10:1:1", "two-items-skewed", "nested"):
+            wa, wb = expand(groups)
+            for m in (2, 4, 16):
+                cells.append(dict(kind="pmh2", m=m, groups=groups, shape=name + "+reuse", oracle=jp_float(wa, wb), reuse=True,
+                                  trials=trials_for(4 if m < 16 else 8, len(wa), quick)))
     res_ = freqfam.run_pairs(chk, cells, "pairs")
     freqfam.judge_pairs(chk, cells, res_, "pairs")
     chk.cov["pair_cells"] = len(cells)
